@@ -58,6 +58,57 @@ CHECKS["C20"] = dict(
     note="trusted: TLC; the entry table in harness/drivers/alias.py (entry points outside it - plotting, export - are not covered); byte-wise comparison as oracle",
 )
 
+CHECKS["C03"] = dict(
+    technique="TLA+ spec Derive.tla (derivation graph of the four defining functions, variant rules, exact rational closed forms, integral-scale setter) checked with TLC; TLC-computed values replayed on generated user subclasses and all shipped model classes",
+    text="TLC enumerates all 16 subsets of defining functions (termination / grounding of the installed derivation), the variant rules on exact lattices and the documented closed forms of the polynomial / rational models as exact rationals on a lag x parameter lattice; "
+         "generated user subclasses, the 17 shipped classes and the integral-scale setter are executed and compared with TLC's values (1e-12). Scope-limited: transcendental closed forms, quadrature and root-finding accuracy are not covered.",
+    design_ref="DESIGN.md §4.3, §5 C03",
+    note="trusted: TLC; lattice restriction (lags k/8 len_scale, dyadic parameters, Pythagorean / quarter-turn angles); relations for transcendental models compare two implementation outputs",
+)
+CHECKS["C08"] = dict(
+    technique="TLA+ definition of the variogram estimators in exact integer arithmetic (Vario.tla), inputs enumerated and expected results computed by TLC; every input replayed into the compiled kernels and vario_estimate / vario_estimate_axis",
+    text="TLC enumerates point sets (duplicates, collinear), fields with NaNs, bin edges (pairs exactly on edges), estimators, directions / tolerance classes / bandwidths, separated directions, exact great-circle families and masked grids, "
+         "and computes counts, Matheron values as rationals and Cressie bags; each input is executed by the compiled kernels and the public functions: counts exact (or within the spec's boundary alternatives), values to 1e-12.",
+    design_ref="DESIGN.md §4.7, §5 C08",
+    note="trusted: TLC; Cressie normalisation applied in Python to TLC's bag of differences; haversine accuracy at generic coordinates not covered; two open known findings (antipodal NaN distance, coincident pair with separated directions)",
+)
+CHECKS["C09"] = dict(
+    technique="invariance and preprocessing theorems of Vario.tla checked by TLC as invariants over enumerated inputs; both sides of each relation replayed through the real vario_estimate",
+    text="Permutation, lattice translation, signed axis permutations / quarter turns with directions, constant shift, integer scaling, masked = no_data = NaN = removed, per-field skipping, structured mesh = point list, geo_scale unit conversion and seeded sub-sampling (identified subset) "
+         "are theorems of the spec estimator checked by TLC and relations replayed on the implementation (about 45 relation kinds).",
+    design_ref="DESIGN.md §4.7, §5 C09",
+    note="trusted: TLC; non-lattice rotations / translations are rounding-level statements and not covered; C08's two open findings are visible through this binding and listed for C09 as well",
+)
+CHECKS["C12"] = dict(
+    technique="TLA+ exact matrix algebra of rotations / anisotropy on the quarter-turn group (Geometry.tla) checked exhaustively with TLC; TLC matrices and transformed positions replayed against tools.geometric, CovModel and the SRF / Krige / CondSRF pipelines",
+    text="All quarter-turn angle vectors (4 / 64 / 4096 in dim 2 / 3 / 4) x dyadic ratio vectors: Iso o Aniso = Id, proper orthogonality, embedding, documented sense of each elementary rotation, main-axis length scales; the implementation's matrices, "
+         "CovModel methods and complete field / kriging / conditioned-simulation pipelines must equal the isotropic computation at the spec's transformed positions; general angles are covered as relations between implementation outputs.",
+    design_ref="DESIGN.md §4.2, §5 C12",
+    note="trusted: TLC; composition order of the elementary rotations is the one clause taken from the code (named constant Order); cos/sin accuracy not covered",
+)
+CHECKS["C13"] = dict(
+    technique="TLA+ exact sphere / space-time geometry on the octahedral and great-circle integer-degree lattices (GeometrySphere.tla, Geometry.tla) checked with TLC; replayed against latlon2pos / pos2latlon, lat-lon (+time) models, the variogram estimator, Yadrenko covariances and kriging",
+    text="Lat-lon <-> 3-D conversion and round trip, radius scaling, time axis appended and divided by the last ratio only, exact integer-degree great-circle distances (date line, poles, lon +- 360k), the 24 octahedral rotations; "
+         "the implementation's conversions, estimator distances, cov_yadrenko relation, kriging covariances and rotation invariance of kriging are compared with the spec values.",
+    design_ref="DESIGN.md §4.2, §5 C13",
+    note="trusted: TLC; haversine / atan2 accuracy at generic points not covered; rotation invariance is demanded of kriging only (a RandMeth realisation is not rotation invariant)",
+)
+CHECKS["C15"] = dict(
+    technique="TLA+ defining sums (Kernels.tla) computed by TLC on exact lattices + TLA+ OpenMP schedule models generated from the current .pyx (OmpTemplate.tla) model-checked for races / accumulation order; compiled .so vs interpreted .pyx vs OpenMP build of the generated C under all thread counts",
+    text="Three implementations (shipped .so, plain interpretation of the current .pyx, OpenMP build of the generated C with 1..16 threads) are compared on every TLC-enumerated input against TLC's exact result and on random float inputs against each other (thread counts bit-identical); "
+         "the loop nests of every prange region are extracted at check time into a TLA+ model whose RaceFree / OrderDeterministic / SerialEquivalent invariants TLC checks for all schedules of <= 3 threads.",
+    design_ref="DESIGN.md §4.9, §5 C15",
+    category="model_checking",
+    note="trusted: TLC; OpenMP semantics encoded in OmpTemplate.tla (cross-checked against the pragmas); Cython is not installed, so a .pyx change is judged through its interpretation, not a recompilation",
+)
+CHECKS["C16"] = dict(
+    technique="TLA+ projector identity |k|^2 (k . p(k)) = 0 on the projector extracted from the current .pyx, checked by TLC on a polynomial-determining grid; single-mode probing of the compiled kernel and analytic divergence of SRF(generator='VectorField') fields",
+    text="Divergence-freeness is decided as a polynomial identity (TLC, grid (-2..2)^d determines the degree-2 polynomial), bound to the code by probing the compiled kernel with single modes and by assembling the analytic divergence of whole fields from the generator's own modes; "
+         "the mean-velocity clause is decided exactly with a vanishing variance and linear scaling relations. Scope-limited: the split of component variances is statistical and not covered.",
+    design_ref="DESIGN.md §4.9, §5 C16",
+    note="trusted: TLC; reads the generator's private sample arrays to assemble the analytic divergence",
+)
+
 ALL = ["C%02d" % i for i in range(1, 21)]
 
 
